@@ -9,11 +9,11 @@ def main():
         for k in ("debug", "release", "asan"):
             rt.binary(k)
         rt.miri_prepare()
-        try:
-            import api
-            api.setup()
-        except ImportError:
-            pass
+        import api
+        api.setup()
+        import wasm32
+        wasm32.sysroot()
+        common.cargo_build_crate(common.instantiate_crate("hirdump"), "stable", bin_name="hirdump")
     except common.Inconclusive as e:
         common.log("setup failed: %s" % e)
         return 1
